@@ -146,3 +146,9 @@ size_t peek_full(const ares_channel_t *ch, char *out, size_t cap)
   off = pf_add(out, cap, off, "optmask=%u\n", ch->optmask);
   return off;
 }
+
+/* a configuration reload (ares_reinit) has been started and has not finished applying */
+int peek_reinit_pending(const ares_channel_t *ch)
+{
+  return ch != NULL && ch->reinit_pending ? 1 : 0;
+}
